@@ -321,4 +321,9 @@ func runC06(c *eng.Ctx) {
 			c.ErrChecked("ERR-ec", "step", fn, calls, "I/O and codec errors of shard generation reach the caller")
 		}
 	}
+
+	// no error of a callee is dropped on the encode / rebuild / read paths
+	errAll(c, "ERR-ec-paths", "weed/storage/erasure_coding", "an error of a callee on the EC encode / rebuild path reaches the caller", "WriteEcFiles", "RebuildEcFiles", "generateEcFiles", "encodeDatFile", "WriteSortedFileFromIdx")
+	errAll(c, "ERR-ec-paths", "weed/storage", "an error of a callee on the EC read path reaches the caller", "(*Store).ReadEcShardNeedle", "(*Store).recoverOneRemoteEcShardInterval")
+	c.Expect("ERR-ec-paths", 18)
 }
